@@ -61,6 +61,12 @@ func vxLimitTemplates() []vxLimitTpl {
 				vxRule(vxA("jq", "X", "Y"), vxA("ja", "X"), vxA("jb", "Y"), vxA("jc", "Y")),
 			}, edb: []ast.PredicateSym{vxP("ja", 1), vxP("jb", 1), vxP("jc", 1)}, idb: []ast.PredicateSym{vxP("jq", 2)}},
 		},
+		{ // 7: an earlier stratum may use up exactly the budget before a product stratum starts
+			t: vxTemplate{name: "copy-then-product", rules: []ast.Clause{
+				vxRule(vxA("a", "X"), vxA("s", "X")),
+				vxRule(vxA("pp", "X", "Y"), vxA("a", "X"), vxA("a", "Y")),
+			}, edb: []ast.PredicateSym{vxP("s", 1)}, idb: []ast.PredicateSym{vxP("a", 1), vxP("pp", 2)}},
+		},
 	}
 }
 
